@@ -6,74 +6,92 @@
 From SC Require Import Lib.Prelude Lib.Int Lib.Host Model.Rwa Model.RwaCompliance Model.RwaIdentity
   Run.C04Compliance Run.C04Identity Proofs.Rwa Proofs.RwaCompliance Proofs.RwaIdentity.
 
-(* the collaborators' answers during call [c] are those of the two other models *)
-Definition answers_of (s : state) (c : call) (cf : ccfg) (cst : cstate) (deny : list addr) (w : iworld) : Prop :=
+(* the collaborators' answers during call [c] are those of the two other models; [approved]: the
+   compliance contract answered, and answered true (a query that fails because a module asked
+   fails - traps, cannot be invoked - is no approval) *)
+Definition approved (o : res cret) : bool := match o with Ok (Some true) => true | _ => false end.
+Definition answers_of (s : state) (c : call) (cf : ccfg) (cst : cstate) (deny fail : list addr) (w : iworld) : Prop :=
   (forall a, idv_ok (eff_orc s c) a = is_ok (iverify_identity w a)) /\
-  (forall f t amt tok, Some (o_can_transfer (eff_orc s c)) =
-     match snd (cstep cf cst (mkCC (CCanTransfer f t amt tok) [] deny)) with Ok r => r | Fail => None end) /\
-  (forall t amt tok, Some (o_can_create (eff_orc s c)) =
-     match snd (cstep cf cst (mkCC (CCanCreate t amt tok) [] deny)) with Ok r => r | Fail => None end).
+  (forall f t amt tok, o_can_transfer (eff_orc s c) =
+     approved (snd (cstep cf cst (mkCCF (CCanTransfer f t amt tok) [] deny fail)))) /\
+  (forall t amt tok, o_can_create (eff_orc s c) =
+     approved (snd (cstep cf cst (mkCCF (CCanCreate t amt tok) [] deny fail)))).
 
-Lemma can_transfer_answer cf cst deny f t amt tok :
-  snd (cstep cf cst (mkCC (CCanTransfer f t amt tok) [] deny)) =
-  Ok (Some (forallb (fun m => negb (mem m deny)) (mods cst HCanTransfer))).
+Definition all_ok (deny fail : list addr) (ms : list addr) : bool :=
+  negb (any_fail fail (asked deny ms)) && forallb (fun m => negb (mem m deny)) ms.
+
+Lemma approved_ask fail deny ms e (s : cstate) :
+  approved (match (do bs <- ask_all_f fail deny ms e s; Ok (Some (fst bs), snd bs)) with
+            | Ok (r, s') => Ok r | Fail => Fail end) = all_ok deny fail ms.
 Proof.
-  destruct (cstep_cases cf cst (mkCC (CCanTransfer f t amt tok) [] deny)) as [(r & s' & H)|H].
-  - pose proof (dispatch _ _ _ _ _ H) as D. cbn [cc_op cc_deny] in D. destruct D as (-> & _). rewrite H. reflexivity.
-  - exfalso. unfold cstep, cexec in H. cbn [cc_op] in H.
-    destruct (ask_all _ _ _ _). discriminate.
+  unfold all_ok. rewrite ask_all_f_eq. destruct (any_fail fail (asked deny ms)); cbn [bind negb andb approved]; auto.
+  destruct (ask_all_spec deny ms e s) as (A & _). cbn [fst]. rewrite A. unfold all_approve.
+  destruct (forallb _ ms); reflexivity.
 Qed.
-Lemma can_create_answer cf cst deny t amt tok :
-  snd (cstep cf cst (mkCC (CCanCreate t amt tok) [] deny)) =
-  Ok (Some (forallb (fun m => negb (mem m deny)) (mods cst HCanCreate))).
+Lemma snd_cstep cf s c :
+  snd (cstep cf s c) = match cexec cf c (cclear s) with Ok (r, s') => Ok r | Fail => Fail end.
+Proof. unfold cstep. destruct (cexec cf c (cclear s)) as [[r s']|]; reflexivity. Qed.
+
+Lemma can_transfer_answer cf cst deny fail f t amt tok :
+  approved (snd (cstep cf cst (mkCCF (CCanTransfer f t amt tok) [] deny fail))) =
+  all_ok deny fail (mods cst HCanTransfer).
+Proof. rewrite snd_cstep. unfold cexec. cbn [cc_op cc_auths cc_deny cc_fail]. apply approved_ask. Qed.
+Lemma can_create_answer cf cst deny fail t amt tok :
+  approved (snd (cstep cf cst (mkCCF (CCanCreate t amt tok) [] deny fail))) =
+  all_ok deny fail (mods cst HCanCreate).
+Proof. rewrite snd_cstep. unfold cexec. cbn [cc_op cc_auths cc_deny cc_fail]. apply approved_ask. Qed.
+
+Lemma all_ok_true deny fail ms :
+  all_ok deny fail ms = true -> forall m, In m ms -> ~ In m deny /\ ~ In m fail.
 Proof.
-  destruct (cstep_cases cf cst (mkCC (CCanCreate t amt tok) [] deny)) as [(r & s' & H)|H].
-  - pose proof (dispatch _ _ _ _ _ H) as D. cbn [cc_op cc_deny] in D. destruct D as (-> & _). rewrite H. reflexivity.
-  - exfalso. unfold cstep, cexec in H. cbn [cc_op] in H.
-    destruct (ask_all _ _ _ _). discriminate.
+  unfold all_ok. intros H. apply andb_prop in H. destruct H as [H1 H2].
+  assert (E : asked deny ms = ms).
+  { clear H1. induction ms as [|x r IH]; cbn [asked forallb] in *; auto.
+    apply andb_prop in H2. destruct H2 as [Hx Hr]. apply negb_true_iff in Hx. rewrite Hx. f_equal. auto. }
+  rewrite E in H1. apply negb_true_iff in H1.
+  intros m Hm. split.
+  - rewrite forallb_forall in H2. specialize (H2 m Hm). apply negb_true_iff in H2. apply mem_false. exact H2.
+  - exact (proj1 (any_fail_false fail ms) H1 m Hm).
 Qed.
 
 Theorem gates_composed : forall (hc : hostcfg) (s : state) (c : call) (s' : state) (r : ret)
-    (cf : ccfg) (cst : cstate) (deny : list addr) (w : iworld),
-  answers_of s c cf cst deny w ->
+    (cf : ccfg) (cst : cstate) (deny fail : list addr) (w : iworld),
+  answers_of s c cf cst deny fail w ->
   step hc s c = (s', Ok r) ->
   match c_op c with
   | Transfer from to amt | TransferFrom _ from to amt =>
       paused s = false /\ aflag s from = false /\ aflag s to = false /\
       0 <= amt <= bal s from - frozen s from /\
       verified w from = true /\ verified w to = true /\
-      (forall m, In m (mods cst HCanTransfer) -> ~ In m deny)
+      (forall m, In m (mods cst HCanTransfer) -> ~ In m deny /\ ~ In m fail)
   | Mint to amt _ =>
-      0 <= amt /\ verified w to = true /\ (forall m, In m (mods cst HCanCreate) -> ~ In m deny)
+      0 <= amt /\ verified w to = true /\ (forall m, In m (mods cst HCanCreate) -> ~ In m deny /\ ~ In m fail)
   | _ => True
   end.
 Proof.
-  intros hc s c s' r cf cst deny w (HV & HT & HC) H.
+  intros hc s c s' r cf cst deny fail w (HV & HT & HC) H.
   pose proof (gates_thm hc s c s' r H) as G.
-  assert (Hall : forall l, forallb (fun m => negb (mem m deny)) l = true -> forall m, In m l -> ~ In m deny).
-  { intros l Hl m Hm. rewrite forallb_forall in Hl. specialize (Hl m Hm). apply negb_true_iff in Hl.
-    apply mem_false. exact Hl. }
   destruct (c_op c); auto.
   - destruct G as (A & B & C & D & E & F & K & _).
-    rewrite HV, verify_iff in E, F. repeat split; auto; try lia.
-    specialize (HT from to amt 0%N). rewrite can_transfer_answer in HT. injection HT as HT.
-    apply Hall. rewrite <- HT. exact K.
+    rewrite HV, verify_iff in E, F. repeat split; auto; try lia;
+    specialize (HT from to amt 0%N); rewrite can_transfer_answer in HT; rewrite HT in K;
+    apply (all_ok_true _ _ _ K); assumption.
   - destruct G as (A & B & C & D & E & F & K & _).
-    rewrite HV, verify_iff in E, F. repeat split; auto; try lia.
-    specialize (HT from to amt 0%N). rewrite can_transfer_answer in HT. injection HT as HT.
-    apply Hall. rewrite <- HT. exact K.
+    rewrite HV, verify_iff in E, F. repeat split; auto; try lia;
+    specialize (HT from to amt 0%N); rewrite can_transfer_answer in HT; rewrite HT in K;
+    apply (all_ok_true _ _ _ K); assumption.
   - destruct G as (A & E & K & _).
-    rewrite HV, verify_iff in E. repeat split; auto.
-    specialize (HC to amt 0%N). rewrite can_create_answer in HC. injection HC as HC.
-    apply Hall. rewrite <- HC. exact K.
+    rewrite HV, verify_iff in E. repeat split; auto;
+    specialize (HC to amt 0%N); rewrite can_create_answer in HC; rewrite HC in K;
+    apply (all_ok_true _ _ _ K); assumption.
 Qed.
 
 (* the hypothesis of [gates_composed] is satisfiable for every registry state, compliance state and
-   set of refusing modules: the collaborator that answers exactly as the other two models compute *)
-Definition canonical_orc (w : iworld) (cst : cstate) (deny : list addr) : oracle :=
+   sets of refusing / failing modules: the collaborator that answers exactly as the other two models compute *)
+Definition canonical_orc (w : iworld) (cst : cstate) (deny fail : list addr) : oracle :=
   mkOracle (filter (fun a => is_ok (iverify_identity w a)) (map fst (w_ident w)))
-           (forallb (fun m => negb (mem m deny)) (mods cst HCanTransfer))
-           (forallb (fun m => negb (mem m deny)) (mods cst HCanCreate))
+           (all_ok deny fail (mods cst HCanTransfer))
+           (all_ok deny fail (mods cst HCanCreate))
            (w_recovered w).
 
 Lemma alist_get_in {V} a (l : list (addr * V)) v : alist_get a l = Some v -> In a (map fst l).
@@ -84,10 +102,10 @@ Proof.
 Qed.
 
 Theorem answers_of_canonical : forall (s : state) (o : op) (au : list addr) (cf : ccfg) (cst : cstate)
-    (deny : list addr) (w : iworld),
-  answers_of s (mkCall o au (fun _ => canonical_orc w cst deny)) cf cst deny w.
+    (deny fail : list addr) (w : iworld),
+  answers_of s (mkCall o au (fun _ => canonical_orc w cst deny fail)) cf cst deny fail w.
 Proof.
-  intros s o au cf cst deny w. unfold answers_of, eff_orc. cbn [c_orc canonical_orc o_verified o_can_transfer o_can_create].
+  intros s o au cf cst deny fail w. unfold answers_of, eff_orc. cbn [c_orc canonical_orc o_verified o_can_transfer o_can_create].
   split; [|split].
   - intros a. unfold idv_ok. cbn [o_verified].
     destruct (is_ok (iverify_identity w a)) eqn:V.
